@@ -1,7 +1,8 @@
 #!/usr/bin/env python3
 """E2c driver: run the simulated-threads program under Miri's seeded scheduler.
 
-usage: run_miri.py check <PROP> <tier> <verif_seed> <evidence.json>
+usage: run_miri.py check <PROP> <tier> <verif_seed> <evidence.json>      (E2c threads)
+       run_miri.py simslice <PROP> <tier> <verif_seed> <evidence.json>   (a slice of the engine's index space under Miri)
        run_miri.py replay <PROP> <replay.json>
 Exit 0 held, 1 violation (VIOLATION line printed), 2 harness error.
 """
@@ -76,8 +77,156 @@ def check(prop, tier, seed, evidence_path):
     return 1 if viol else 0
 
 
+SIM = os.path.join(VERIF, "sim")
+
+
+def sim_miri_cmd(args):
+    return ["cargo", "+nightly", "miri", "run", "--offline", "--"] + [str(a) for a in args]
+
+
+def sim_env():
+    env = dict(os.environ)
+    # fixtures are read from /repo/fixtures: needs file access
+    env["MIRIFLAGS"] = "-Zmiri-disable-isolation"
+    env["CARGO_NET_OFFLINE"] = "true"
+    env["CARGO_TARGET_DIR"] = os.path.join(SIM, "target", "miri")
+    return env
+
+
+def parse_slice(out):
+    """-> (results: {index: json-text}, last_begun, finished)"""
+    res, last, fin, cases = {}, None, False, {}
+    for l in out.splitlines():
+        if l.startswith("B "):
+            last = int(l[2:])
+        elif l.startswith("R "):
+            i, _, j = l[2:].partition(" ")
+            res[int(i)] = j
+        elif l.startswith("E ") and last is not None:
+            cases[last] = l[2:]
+        elif l.startswith("S "):
+            fin = True
+    return res, last, fin, cases
+
+
+def simslice(prop, tier, seed, evidence_path):
+    """Runs N indices spread evenly over the property's index space (exhaustive, sweep and
+    random blocks alike) with the real simulator + real gimli interpreted by Miri: every
+    unsafe block of gimli (ArrayVec storage, SubRange pointer arithmetic) is executed under
+    Miri's checks, and each run's event-stream digest must equal the native one."""
+    native = os.path.join(SIM, "target", "debug", "simctl")
+    p = subprocess.run([native, "runs", prop, "--tier", tier], stdout=subprocess.PIPE, text=True)
+    if p.returncode != 0:
+        print("HARNESS-ERROR: simctl runs %s failed" % prop, file=sys.stderr)
+        return 2
+    engine, runs = p.stdout.split()
+    runs = int(runs)
+    procs = 16
+    per = {"quick": 2, "thorough": 12}.get(tier, 2)
+    if engine == "e4":
+        per = max(1, per // 3)  # one E4 index = 31 executions of the unwinder
+    n = procs * per
+    stride = max(1, runs // n)
+    t0 = time.time()
+    # build once, serially
+    b = subprocess.run(sim_miri_cmd(["slice", "--prop", prop, "--tier", tier, "--engine", engine, "--seed", seed, "--count", 0]),
+                       cwd=SIM, env=sim_env(), stdout=subprocess.PIPE, stderr=subprocess.STDOUT, text=True)
+    if b.returncode != 0 or "S 0" not in b.stdout:
+        print("HARNESS-ERROR: miri build of the simulator failed", file=sys.stderr)
+        print(b.stdout[-3000:], file=sys.stderr)
+        return 2
+    def args_of(k):
+        return ["slice", "--prop", prop, "--tier", tier, "--engine", engine, "--seed", seed,
+                "--start", k * stride + (seed % stride), "--step", procs * stride, "--count", per, "--max-bytes", 6000]
+    ps = [subprocess.Popen(sim_miri_cmd(args_of(k)), cwd=SIM, env=sim_env(), stdout=subprocess.PIPE, stderr=subprocess.PIPE, text=True)
+          for k in range(procs)]
+    outs = []
+    for q in ps:
+        try:
+            o, e = q.communicate(timeout=7200)
+        except subprocess.TimeoutExpired:
+            q.kill()
+            print("HARNESS-ERROR: miri slice timed out", file=sys.stderr)
+            return 2
+        outs.append((q.returncode, o, e))
+    viol, done, mism = [], 0, 0
+    for k, (rc, o, e) in enumerate(outs):
+        res, last, fin, cases = parse_slice(o)
+        done += len(res)
+        # native twin of the same slice
+        nat = subprocess.run([native] + [str(a) for a in args_of(k)], stdout=subprocess.PIPE, stderr=subprocess.DEVNULL, text=True)
+        nres, _, nfin, _ = parse_slice(nat.stdout)
+        for i, j in res.items():
+            for r in json.loads(j):
+                if r.get("class"):
+                    viol.append({"index": i, "class": r["class"] + " (under miri)", "case": json.loads(cases[i]) if i in cases else None, "tail": []})
+            if i in nres and nres[i] != j:
+                mism += 1
+                viol.append({"index": i, "class": "miri_native_divergence@%s" % engine, "case": None,
+                             "tail": ["miri:   " + j[:400], "native: " + nres[i][:400]]})
+        if rc != 0 or not fin:
+            tail = e.strip().splitlines()[-40:]
+            if "Undefined Behavior" in e or "error: " in e:
+                viol.append({"index": last, "class": "miri_ub@%s" % engine, "case": None, "tail": tail})
+            else:
+                print("HARNESS-ERROR: miri slice %d failed rc=%s" % (k, rc), file=sys.stderr)
+                print(e[-3000:], file=sys.stderr)
+                return 2
+    wall = time.time() - t0
+    seen = set()
+    os.makedirs(os.path.join(VERIF, "replays"), exist_ok=True)
+    for v in viol:
+        key = v["class"]
+        if key in seen:
+            continue
+        seen.add(key)
+        rp = os.path.join(VERIF, "replays", "%s-mirislice-%s.json" % (prop, v["index"]))
+        json.dump({"property": prop, "engine": "e2c-miri", "kind": "simslice", "sim_engine": engine, "tier": tier, "verif_seed": seed,
+                   "index": v["index"], "class": v["class"], "case": v["case"], "output_tail": v["tail"]}, open(rp, "w"), indent=1)
+        print("VIOLATION property=%s replay=%s" % (prop, rp))
+        print("  class: %s" % v["class"])
+        for l in v["tail"][-14:]:
+            print("  | " + l)
+    try:
+        ev = json.load(open(evidence_path))
+        ev["coverage"]["miri_slice"] = {
+            "tool": "cargo +nightly miri run (-Zmiri-disable-isolation) of the simulator itself",
+            "engine": engine, "indices_run": done, "indices_planned": n, "stride": stride, "index_space": runs,
+            "digest_mismatches_vs_native": mism, "violations": len(seen), "wall_s": round(wall, 1),
+            "what": "real simulator + real gimli interpreted by Miri; each index also executed natively and the event-stream digests compared"}
+        ev["coverage"]["evaluations"] = ev["coverage"]["evaluations"] + done
+        ev["wall_s"] = ev.get("wall_s", 0) + wall
+        ev["violations"] = ev.get("violations", 0) + len(seen)
+        json.dump(ev, open(evidence_path, "w"), indent=2)
+    except Exception as ex:
+        print("HARNESS-ERROR: cannot update evidence: %s" % ex, file=sys.stderr)
+        return 2
+    print("MIRI-SLICE property=%s engine=%s indices=%d/%d digest_mismatches=%d wall=%.1fs violations=%d" % (prop, engine, done, n, mism, wall, len(seen)))
+    return 1 if seen else 0
+
+
+def replay_slice(prop, r):
+    args = ["slice", "--prop", prop, "--tier", r["tier"], "--engine", r["sim_engine"], "--seed", r["verif_seed"],
+            "--start", r["index"], "--step", 1, "--count", 1]
+    p = subprocess.run(sim_miri_cmd(args), cwd=SIM, env=sim_env(), stdout=subprocess.PIPE, stderr=subprocess.PIPE, text=True)
+    nat = subprocess.run([os.path.join(SIM, "target", "debug", "simctl")] + [str(a) for a in args], stdout=subprocess.PIPE, stderr=subprocess.DEVNULL, text=True)
+    res, _, fin, _ = parse_slice(p.stdout)
+    nres, _, _, _ = parse_slice(nat.stdout)
+    print(p.stdout[-1500:])
+    print(p.stderr[-2500:])
+    bad = p.returncode != 0 or not fin or res != nres or any(x.get("class") for j in res.values() for x in json.loads(j))
+    if bad:
+        print("VIOLATION property=%s replay=%s" % (prop, r.get("_path", "?")))
+        return 1
+    print("replay: no violation reproduced on the current tree")
+    return 0
+
+
 def replay(prop, path):
     r = json.load(open(path))
+    if r.get("kind") == "simslice":
+        r["_path"] = path
+        return replay_slice(prop, r)
     flags = "-Zmiri-preemption-rate=0.1"
     if r.get("miri_seed") is not None:
         flags += " -Zmiri-seed=%d" % r["miri_seed"]
@@ -95,6 +244,8 @@ def replay(prop, path):
 if __name__ == "__main__":
     if sys.argv[1] == "check":
         sys.exit(check(sys.argv[2], sys.argv[3], int(sys.argv[4], 0), sys.argv[5]))
+    elif sys.argv[1] == "simslice":
+        sys.exit(simslice(sys.argv[2], sys.argv[3], int(sys.argv[4], 0), sys.argv[5]))
     elif sys.argv[1] == "replay":
         sys.exit(replay(sys.argv[2], sys.argv[3]))
     sys.exit(2)
